@@ -340,7 +340,9 @@ def load_utils_copy(name: str, ctl: Controller | None = None) -> dict:
     """Execute the real ``term_image/utils.py`` once more; returns the copy's globals."""
     import multiprocessing
 
-    import term_image.utils as U
+    with warnings.catch_warnings():
+        warnings.simplefilter("ignore")  # "not running within a terminal"
+        import term_image.utils as U
 
     path = U.__file__
     if path not in _CODE:
